@@ -30,7 +30,7 @@ ASSUMPTIONS = ['oracle: the model re-implemented from its definition and differe
 MIN_REACH = {'fitting:jacobian': 1, 'fitting:lmfit_jacobian': 1, 'fitting:covar_errors': 1, 'fitting:errors': 1,
              'fitting:do_lmfit': 1}
 MIN_COUNTERS = {'contract_Cmatrix': 10, 'contract_Bmatrix': 5, 'contract_component_errors': 10, 'component_shape_errors_judged': 5, 'contract_jacobian': 50, 'contract_lmfit_jacobian': 50, 'contract_covar_errors': 50,
-                'sigma_entries_judged': 100, 'noise_model_selection_judged': 20, 'insitu_priorized_fits': 5, 'insitu_fits_seen': 20, 'priorized_rows_free_errors_judged': 5}
+                'sigma_entries_judged': 100, 'noise_model_selection_judged': 20, 'insitu_priorized_fits': 5, 'insitu_fits_seen': 20, 'priorized_rows_free_errors_judged': 5, 'component_position_errors_judged': 10}
 
 _OBS = None
 _installed = False
@@ -412,6 +412,29 @@ def post_result_to_components(model, sources, finder=None):
                 o.worst('err_pa_vs_bearing_change_rel', d)
                 if d > 0.05:
                     o.violate('err_pa_is_not_err_theta', dict(w, expected_err_pa=dpa))
+        # position errors: the pixel offset (err_xo along the first index = rows = Dec-ish, err_yo along the second) carried to the sky;
+        # err_ra is its extent along the parallel, err_dec its extent along the meridian (independent WCS)
+        try:
+            exo, eyo = model[pre + 'xo'].stderr, model[pre + 'yo'].stderr
+            pos_free = model[pre + 'xo'].vary and model[pre + 'yo'].vary
+        except KeyError:
+            exo = eyo = None
+            pos_free = False
+        if pos_free and ok(exo) and ok(eyo) and ok(src.err_ra) and ok(src.err_dec) and max(exo, eyo) < 5.0:
+            c0 = sky(xo, yo)
+            c1 = sky(xo + exo, yo + eyo)
+            e_ra = float(sphere_sep(c0[0], c0[1], c1[0], c0[1]))
+            e_dec = float(abs(c1[1] - c0[1]))
+            if e_ra > 0 and e_dec > 0:
+                o.count('component_position_errors_judged')
+                dr, dd = abs(src.err_ra - e_ra) / e_ra, abs(src.err_dec - e_dec) / e_dec
+                o.worst('err_ra_vs_projection_rel', dr)
+                o.worst('err_dec_vs_projection_rel', dd)
+                if dr > 0.01 or dd > 0.01:
+                    swapped = abs(src.err_ra - e_dec) <= 0.01 * e_dec and abs(src.err_dec - e_ra) <= 0.01 * e_ra
+                    o.violate('position_errors_are_not_the_fits_own', dict(
+                        w, err_xo=float(exo), err_yo=float(eyo), err_ra=src.err_ra, err_dec=src.err_dec, expected_err_ra=e_ra,
+                        expected_err_dec=e_dec, swapped=bool(swapped)))
 
 
 class ContractBroken(Exception):
